@@ -15,7 +15,12 @@
      - Accept <=> (Bad = {}): the linear-time formulation used by the trace validator agrees with the definitional
        one, on the builder's output and on systematically damaged copies of it (which must all be rejected when the
        damage is observable);
-     - history invariants (bounded span, newest number present, first arrival wins, pending subset of history).   *)
+     - history invariants (bounded span, newest number present, first arrival wins, pending subset of history).
+   Scaled constants (MC_Twcc*.cfg): 8 sequence numbers, history of 4, gap limit 2, window 10 us, 2 us ticks, 8 us
+   reference units modulo 4, small deltas 0..3, large deltas -8..7, tolerance 1 us, counter modulo 4 - the ratios of the
+   real constants (HMAX = M/2, GAPMAX = HMAX-2, SMAX = RU/TU-1).  Times = the arrival times a Record may carry (any
+   order: reordered clock readings included); RB = time base.  Mut # 0 replaces the builder by a damaged one
+   (MC_Twcc_neg.cfg: Satisfiable must then be violated).                                                          *)
 EXTENDS Twcc
 CONSTANTS MaxSteps, Times, RB, Mut
 VARIABLES x, im, tl, steps
